@@ -17,7 +17,7 @@ structure Layout where
   nHdr : Nat               -- number of leading items that belong to the object header
   items : List Item        -- everything after the signature; the last one may be `pad osF 4`
   pre : List (Nat × Expr)  -- write-side pre-processing assignments before headerSize/objectSize
-  deriving Repr, Inhabited
+  deriving Repr, Inhabited, DecidableEq
 
 def lensOf : List Item → List (Nat × Nat × Nat)
   | [] => []
